@@ -1013,6 +1013,7 @@ def _expand_when_stmt_element(
             new_elements.append(Goto(label=else_statement_label_name))
 
             new_elements.append(Label(name=else_statement_label_name))
+            new_elements.append(EndScope(name=scope_label_name))
             new_elements.extend(expand_elements(element.else_elements, flow_configs))
 
         # End label
